@@ -113,3 +113,46 @@ def run(ck, replay=None):
     ck.cov['exhaustive'] = (not quick)
     if len(nontriv) < 100:
         raise common.Infra('vacuous: only %d non-trivial behaviours' % len(nontriv))
+
+
+def selftest(ck):
+    """Demonstrate the binding (rule 4.8): a corrupted trace must be rejected by StreamTrace.tla, a trace with one
+    event removed must be rejected, and a replay path with one flipped expected value must be reported."""
+    import copy
+    ok = True
+    r, tr, n = streamlib.drive_and_validate(ck, 11, 50, [], 4, 'st0')
+    if r.violated:
+        common.log('selftest: pristine trace rejected?!')
+        return False
+    rows = common.read_ndjson(tr)
+    cfg = open(os.path.join(common.SPEC, 'StreamTrace.cfg')).read().replace('@MAXBUF@', '4')
+
+    def validate(rows2, label):
+        text = ''.join(json.dumps(x, separators=(',', ':')) + '\n' for x in rows2)
+        return common.tlc('StreamTrace', 'Run.cfg', os.path.join(ck.scratch, label), workers=1, timeout=600,
+                          files={'Run.cfg': cfg, 'trace.ndjson': text})
+    # corrupt one logged counter
+    idx = [i for i, x in enumerate(rows) if x['ev'] == 'r.take'][3]
+    bad = copy.deepcopy(rows)
+    bad[idx]['b'] += 1
+    r1 = validate(bad, 'st1')
+    common.log('selftest: corrupted bytes-read counter in event %d -> %s' % (idx + 1, 'rejected' if r1.violated else 'ACCEPTED'))
+    ok &= bool(r1.violated)
+    # drop one event (as if a hook were missing)
+    idx = [i for i, x in enumerate(rows) if x['ev'] == 'w.append'][2]
+    bad = rows[:idx] + rows[idx + 1:]
+    r2 = validate(bad, 'st2')
+    common.log('selftest: removed w.append event %d -> %s' % (idx + 1, 'rejected' if r2.violated else 'ACCEPTED'))
+    ok &= bool(r2.violated)
+    # flip one expected value of a replay path
+    rr, paths, info = streamlib.gen_paths(ck, 'MCStreamGenQ.cfg', 'nodes', 1, limit=50)
+    p = [x for x in paths if any(s.get('k') == 'read' and s.get('data') for s in x['steps'])][0]
+    for s in p['steps']:
+        if s.get('k') == 'read' and s.get('data'):
+            s['data'][0] += 1
+            break
+    res = streamlib.replay(ck, [p], 2, shards=1)
+    common.log('selftest: flipped an expected byte in a replay path -> %s' % res[0]['status'])
+    ok &= res[0]['status'] == 'mismatch'
+    ck.cov['selftest'] = ok
+    return ok
